@@ -152,6 +152,7 @@ fn finish<N: Proj>(r: std::thread::Result<Result<Vec<N>, saphyr::ScanError>>, sp
 
 /// `load_from_str` for the given node type.
 pub fn load_str(text: &str, ty: NodeTy, spans: bool) -> Loaded {
+    crate::note_input(text);
     use std::panic::{catch_unwind, AssertUnwindSafe};
     match ty {
         NodeTy::Yaml => finish(catch_unwind(AssertUnwindSafe(|| Yaml::load_from_str(text))), spans),
@@ -163,6 +164,7 @@ pub fn load_str(text: &str, ty: NodeTy, spans: bool) -> Loaded {
 
 /// Load through `load_from_parser` on the string back-end (borrowing input).
 pub fn load_parser_str(text: &str, ty: NodeTy, spans: bool) -> Loaded {
+    crate::note_input(text);
     use std::panic::{catch_unwind, AssertUnwindSafe};
     match ty {
         NodeTy::Yaml => finish(catch_unwind(AssertUnwindSafe(|| Yaml::load_from_parser(&mut Parser::new_from_str(text)))), spans),
@@ -175,6 +177,7 @@ pub fn load_parser_str(text: &str, ty: NodeTy, spans: bool) -> Loaded {
 /// Load with `early_parse(false)` (deferred scalar resolution), then optionally resolve.
 /// mode: 0 = leave representations, 1 = parse_representation_recursive on each document.
 pub fn load_lazy(text: &str, ty: NodeTy, mode: u8) -> Loaded {
+    crate::note_input(text);
     use std::panic::{catch_unwind, AssertUnwindSafe};
     macro_rules! go {
         ($t:ty, $rec:expr) => {{
